@@ -40,6 +40,13 @@ def isFuel {α} : PR α → Bool
 def isOk {α} : PR α → Bool
   | .ok _ _ => true
   | _ => false
+/-- continue after a success; every other outcome is passed on unchanged. -/
+def bind {α β} (x : PR α) (f : α → List Char → PR β) : PR β :=
+  match x with
+  | .ok a r => f a r
+  | .err => .err | .fail => .fail | .panic m => .panic m | .fuel => .fuel
+/-- change the value of a success. -/
+def map {α β} (f : α → β) (x : PR α) : PR β := x.bind (fun a r => .ok (f a) r)
 end PR
 
 /-! ### sequencing -/
@@ -48,33 +55,25 @@ end PR
 def ret {α} (a : α) : P α := fun s => .ok a s
 
 /-- `map(p, f)`. -/
-def pmap {α β} (f : α → β) (p : P α) : P β := fun s =>
-  match p s with
-  | .ok a r => .ok (f a) r
-  | .err => .err | .fail => .fail | .panic m => .panic m | .fuel => .fuel
+def pmap {α β} (f : α → β) (p : P α) : P β := fun s => (p s).map f
 
 /-- `map_res(p, f)`: a failed conversion is `Err::Error` at the original input. -/
 def mapRes {α β} (p : P α) (f : α → Option β) : P β := fun s =>
-  match p s with
-  | .ok a r => match f a with
+  (p s).bind fun a r =>
+    match f a with
     | some b => .ok b r
     | none => .err
-  | .err => .err | .fail => .fail | .panic m => .panic m | .fuel => .fuel
 
 /-- `map(p, f)` where the closure `f` has a Rust precondition (debug-build overflow, `unwrap`):
 `.error site` is the panic. -/
 def pmapChecked {α β} (f : α → Except String β) (p : P α) : P β := fun s =>
-  match p s with
-  | .ok a r => match f a with
+  (p s).bind fun a r =>
+    match f a with
     | .ok b => .ok b r
     | .error site => .panic site
-  | .err => .err | .fail => .fail | .panic m => .panic m | .fuel => .fuel
 
 /-- one step of a `tuple((p, …))`: run `p`, hand its value and the rest to the continuation. -/
-def andThen {α β} (p : P α) (f : α → P β) : P β := fun s =>
-  match p s with
-  | .ok a r => f a r
-  | .err => .err | .fail => .fail | .panic m => .panic m | .fuel => .fuel
+def andThen {α β} (p : P α) (f : α → P β) : P β := fun s => (p s).bind f
 
 /-- `preceded(p, q)` / a tuple component whose value is dropped. -/
 def skip {α β} (p : P α) (q : P β) : P β := andThen p (fun _ => q)
@@ -98,10 +97,7 @@ def alt {α} : List (P α) → P α
     | r => r
 
 /-- `peek(p)`. -/
-def peek {α} (p : P α) : P α := fun s =>
-  match p s with
-  | .ok a _ => .ok a s
-  | .err => .err | .fail => .fail | .panic m => .panic m | .fuel => .fuel
+def peek {α} (p : P α) : P α := fun s => (p s).bind fun a _ => .ok a s
 
 /-- `not(p)`. -/
 def pnot {α} (p : P α) : P Unit := fun s =>
@@ -112,9 +108,7 @@ def pnot {α} (p : P α) : P Unit := fun s =>
 
 /-- `recognize(p)`: the consumed slice of the input. -/
 def recognize {α} (p : P α) : P (List Char) := fun s =>
-  match p s with
-  | .ok _ r => .ok (s.take (s.length - r.length)) r
-  | .err => .err | .fail => .fail | .panic m => .panic m | .fuel => .fuel
+  (p s).bind fun _ r => .ok (s.take (s.length - r.length)) r
 
 /-- `eof`. -/
 def eof : P Unit := fun s =>
@@ -217,9 +211,7 @@ def many0F {α} (p : P α) : Nat → P (List α)
     match p s with
     | .ok a r =>
       if r.length = s.length then .err
-      else match many0F p f r with
-        | .ok as r' => .ok (a :: as) r'
-        | .err => .err | .fail => .fail | .panic m => .panic m | .fuel => .fuel
+      else (many0F p f r).map (fun as => a :: as)
     | .err => .ok [] s
     | .fail => .fail | .panic m => .panic m | .fuel => .fuel
 
@@ -227,12 +219,7 @@ def many0 {α} (p : P α) : P (List α) := fun s => many0F p (s.length + 1) s
 
 /-- `many1(p)`: the first application has no length check. -/
 def many1 {α} (p : P α) : P (List α) := fun s =>
-  match p s with
-  | .ok a r =>
-    match many0F p (r.length + 1) r with
-    | .ok as r' => .ok (a :: as) r'
-    | .err => .err | .fail => .fail | .panic m => .panic m | .fuel => .fuel
-  | .err => .err | .fail => .fail | .panic m => .panic m | .fuel => .fuel
+  (p s).bind fun a r => (many0F p (r.length + 1) r).map (fun as => a :: as)
 
 /-- the loop of `separated_list1(sep, p)` after the first element: `i` is the position after the
 last element; a separator that matches but is not followed by an element is given back. -/
@@ -243,10 +230,7 @@ def sepLoopF {α β} (sep : P β) (p : P α) : Nat → P (List α)
     | .ok _ i1 =>
       if i1.length = i.length then .err
       else match p i1 with
-        | .ok a i2 =>
-          match sepLoopF sep p f i2 with
-          | .ok as r => .ok (a :: as) r
-          | .err => .err | .fail => .fail | .panic m => .panic m | .fuel => .fuel
+        | .ok a i2 => (sepLoopF sep p f i2).map (fun as => a :: as)
         | .err => .ok [] i
         | .fail => .fail | .panic m => .panic m | .fuel => .fuel
     | .err => .ok [] i
@@ -254,12 +238,7 @@ def sepLoopF {α β} (sep : P β) (p : P α) : Nat → P (List α)
 
 /-- `separated_list1(sep, p)`. -/
 def separatedList1 {α β} (sep : P β) (p : P α) : P (List α) := fun s =>
-  match p s with
-  | .ok a r =>
-    match sepLoopF sep p (r.length + 1) r with
-    | .ok as r' => .ok (a :: as) r'
-    | .err => .err | .fail => .fail | .panic m => .panic m | .fuel => .fuel
-  | .err => .err | .fail => .fail | .panic m => .panic m | .fuel => .fuel
+  (p s).bind fun a r => (sepLoopF sep p (r.length + 1) r).map (fun as => a :: as)
 
 /-- `many_till(p, g)`: `g` is tried first at every position. -/
 def manyTillF {α β} (p : P α) (g : P β) : Nat → P (List α × β)
@@ -268,13 +247,9 @@ def manyTillF {α β} (p : P α) (g : P β) : Nat → P (List α × β)
     match g s with
     | .ok b r => .ok ([], b) r
     | .err =>
-      match p s with
-      | .ok a r =>
+      (p s).bind fun a r =>
         if r.length = s.length then .err
-        else match manyTillF p g f r with
-          | .ok (as, b) r' => .ok (a :: as, b) r'
-          | .err => .err | .fail => .fail | .panic m => .panic m | .fuel => .fuel
-      | .err => .err | .fail => .fail | .panic m => .panic m | .fuel => .fuel
+        else (manyTillF p g f r).map (fun x => (a :: x.1, x.2))
     | .fail => .fail | .panic m => .panic m | .fuel => .fuel
 
 def manyTill {α β} (p : P α) (g : P β) : P (List α × β) := fun s => manyTillF p g (s.length + 1) s
@@ -296,11 +271,9 @@ def escapedF {α β} (normal : P α) (ctrl : Char) (escapable : P β) (input : L
         | c :: rest =>
           if c = ctrl then
             if rest.length = 0 then .err                     -- `next >= i.input_len()`
-            else match escapable rest with
-              | .ok _ i2 =>
+            else (escapable rest).bind fun _ i2 =>
                 if i2.length = 0 then .ok input []
                 else escapedF normal ctrl escapable input f i2
-              | .err => .err | .fail => .fail | .panic m => .panic m | .fuel => .fuel
           else
             if i.length = input.length then .err             -- `index == 0`
             else .ok (input.take (input.length - i.length)) i
@@ -315,17 +288,8 @@ parsers in order and restarting after the first success; when all remaining ones
 reachable: the loop leaves only when no slot is empty.) -/
 def permutation2 {α β} (p : P α) (q : P β) : P (α × β) := fun s =>
   match p s with
-  | .ok a s1 =>
-    match q s1 with
-    | .ok b s2 => .ok (a, b) s2
-    | .err => .err | .fail => .fail | .panic m => .panic m | .fuel => .fuel
-  | .err =>
-    match q s with
-    | .ok b s1 =>
-      match p s1 with
-      | .ok a s2 => .ok (a, b) s2
-      | .err => .err | .fail => .fail | .panic m => .panic m | .fuel => .fuel
-    | .err => .err | .fail => .fail | .panic m => .panic m | .fuel => .fuel
+  | .ok a s1 => (q s1).map (fun b => (a, b))
+  | .err => (q s).bind fun b s1 => (p s1).map (fun a => (a, b))
   | .fail => .fail | .panic m => .panic m | .fuel => .fuel
 
 end Pilota.Idl
